@@ -235,3 +235,25 @@ func TestFixedD42BreakerReopensWhilePolled(t *testing.T) {
 		t.Fatalf("the breaker never reopened while it was polled (D42)")
 	}
 }
+
+// D27: a script that runs past its time limit. Before the repair the caller was blocked forever (the deferred clean-up sent
+// on an unbuffered channel whose receiver - the watchdog - had already exited).
+func TestFixedD27TimedOutScriptReturns(t *testing.T) {
+	oldT, oldD := SystemParameters.JavascriptTimeouts, SystemParameters.DefaultJavascriptTimeout
+	SystemParameters.JavascriptTimeouts, SystemParameters.DefaultJavascriptTimeout = true, 50*time.Millisecond
+	defer func() { SystemParameters.JavascriptTimeouts, SystemParameters.DefaultJavascriptTimeout = oldT, oldD }()
+	ctx := NewContext("d27")
+	done := make(chan error, 1)
+	go func() {
+		_, err := RunJavascript(ctx, nil, nil, "var n = 0; for(;;){ n = n + 1; }")
+		done <- err
+	}()
+	select {
+	case err := <-done:
+		if err == nil {
+			t.Fatalf("the timed-out script was reported as a success (nil error)")
+		}
+	case <-time.After(3 * time.Second):
+		t.Fatalf("the caller did not get control back 3s after a 50ms script timeout (D27)")
+	}
+}
